@@ -365,6 +365,11 @@ OBLIGATIONS += [
        ["RawCallbackSystem::run_with_cleanup", "run_initialized_system (exclusive branch)"], ["src/ecs/callbacks.rs"],
        "2 runs of one exclusive (&mut World) system that queues one command",
        "per run: body, cleanup, then the body's queued commands; initialized exactly once"),
+    k2("readers.entity_local", _k2h("react::entity_reaction_readers", "entity_local_exposes_the_source_entitys_data"), ["C16", "C03"],
+       ["EntityLocal::entity", "EntityLocal::get", "EntityLocal::get_mut", "EntityLocal::check", "EntityReactor::system"],
+       ["src/react/entity_reaction_readers.rs", "src/react/entity_world_reactor.rs"],
+       "two entities carrying local data of one entity world reactor (any two u8 values); the causing entity is symbolic",
+       "during a run caused by entity X EntityLocal exposes exactly X's local data and get_mut modifies X's data only"),
     k2("callbacks.initialize_noop", _k2h("ecs::callbacks", "callbacks_initialize_after_run_is_a_noop"), ["C13"],
        ["RawCallbackSystem::initialize", "CallbackSystem::initialize", "RawCallbackSystem::run_with_cleanup"], ["src/ecs/callbacks.rs"],
        "an exclusive and an ordinary system (with a Local), each run twice with initialize() called in between; a boxed callback",
